@@ -137,6 +137,7 @@ structure St where
   respFb : Nat := 0xFC
   respProg : Option Prog := none
   nUp : Nat := 0
+  explain : Bool := false   -- coverage mode: print a classification of the op instead of the answer
 
 /-! controller ops -/
 
@@ -230,8 +231,22 @@ def ansFn (tbl : List ((Nat × UpRef) × Option Resp)) : Upstreams := fun d u =>
   | some e => e.2
   | none => none
 
+/-- coverage only: position of the first rule that holds -/
+def firstIdx (env : Env) (rs : List SrcRule) : String :=
+  match rs.findIdx? (fun r => r.holds env) with
+  | some i =>
+    let n := rs.length
+    let pos := if i == 0 then "first" else if i + 1 == n then "last" else "middle"
+    let r := rs.getD i default
+    s!"rule:{pos} conds:{r.funcs.length} neg:{boolStr (r.funcs.any Func.neg)}"
+  | none => "fallback"
+
+def reqSelStr : ReqSel → String
+  | .reject => "reject" | .to .asis => "asis" | .to (.up _) => "upstream" | .err _ => "err"
+
 def handleLine (st : St) (line : String) : St × String :=
   match words line with
+  | ["explain"] => ({ st with explain := true }, "explain")
   | ["req", n, fb, rules] =>
     match n.toNat?, parseOut .req fb, parseRules .req rules with
     | some n, some fb, some rs =>
@@ -252,6 +267,7 @@ def handleLine (st : St) (line : String) : St × String :=
       let env : Env := ⟨nm, qt, [], 0, rx⟩
       let r := requestMatch P env
       let spec := firstMatchSrc env (splitRequestRules st.reqSrc) st.reqFb
+      if st.explain then (st, "rq " ++ firstIdx env (splitRequestRules st.reqSrc)) else
       (st, if r == .hit spec then matchResStr r else s!"MODEL-SPLIT scan={matchResStr r} spec={spec}")
     | _, _, _, _ => (st, "bad-op")
   | ["rs", name, qt, fr, ips, rx] =>
@@ -262,6 +278,7 @@ def handleLine (st : St) (line : String) : St × String :=
         let env : Env := ⟨nm, qt, ips, fr.index, rx⟩
         let r := responseMatch P env
         let spec := firstMatchSrc env st.respSrc st.respFb
+        if st.explain then (st, "rs " ++ (if r == .emptyName then "emptyname" else firstIdx env st.respSrc)) else
         (st, if r == .emptyName || r == .hit spec then matchResStr r
              else s!"MODEL-SPLIT scan={matchResStr r} spec={spec}")
       | none => (st, "bad-op")
@@ -286,6 +303,15 @@ def handleLine (st : St) (line : String) : St × String :=
         let cache0 : Cache := seed.foldl (fun c e => Cache.store c e.1 e.2) []
         let o := handle cfg cache0 dst (isResp == "1") q? (ansFn tbl)
         let keys := (o.cache.map keyLine).mergeSort (fun a b => decide (a ≤ b))
+        if st.explain then
+          let q' := q?.getD ⟨[], 0, []⟩
+          let sel := requestSelect cfg q'
+          let fam := (cache0.filter fun e => e.1.name == canonName q'.name && e.1.qtype == q'.qtype).length
+          let hit := match sel with
+            | .to u => (cache0.lookup ⟨canonName q'.name, q'.qtype, scopeOf dst u⟩).isSome
+            | _ => false
+          (st, s!"ask route:{reqSelStr sel} cached-family:{if fam == 0 then "0" else "1+"} hit:{boolStr hit} queries:{o.trace.length} reply:{(replyStr o.reply).takeWhile (· != ':')}")
+        else
         (st, s!"trace={",".intercalate (o.trace.map upStr)} reply={replyStr o.reply} cache={";".intercalate keys}")
       | _, _ => (st, "bad-op")
     | _, _, _, _, _, _, _, _ => (st, "bad-op")
